@@ -343,10 +343,10 @@ def c10(tier):
     r = res[0]
     return finish("C10", tier, res,
                   rule="36 scenarios (11 three-thread combinations x {empty cache, template pre-announced}, IPFIX and NetFlow v9 where applicable) of: decoder announcing v1 then v2 for key k, decoder sending data for k twice, decoder announcing for another exporter in the same / another shard, second announcer, Dump + load back, peer IRPC.Get x2, peer-fetched insert; "
-                       "all schedules with at most 2 (thorough 3) preemptions, depth-first. Per execution: no panic, no race report, call/return history linearizable w.r.t. a per-key register (brute force over all orders consistent with real time), every lookup returns none or a complete announced template of that key, every dump loads back as complete announced templates. "
+                       "all schedules with at most 3 (thorough 4) deviations from the default scheduler, depth-first. Per execution: no panic, no race report, call/return history linearizable w.r.t. a per-key register (brute force over all orders consistent with real time), every lookup returns none or a complete announced template of that key, every dump loads back as complete announced templates. "
                        "states = executions (complete schedules), transitions = scheduling steps; non-trivial = distinct observation logs per scenario.",
                   assumptions=SCHED_ASSUME + ["3 threads, <=2 operations each; template versions have equal record length and different field lists so the version used is visible"],
-                  extra_cov={"executions": r.extra.get("executions", 0), "distinct_observation_logs": r.extra.get("distinct_observation_logs", 0), "preemption_bound": 3 if tier == "thorough" else 2}, t0=t0)
+                  extra_cov={"executions": r.extra.get("executions", 0), "distinct_observation_logs": r.extra.get("distinct_observation_logs", 0), "deviation_bound": 4 if tier == "thorough" else 3}, t0=t0)
 
 
 PIPE_ASSUME = SCHED_ASSUME + ["the real run() receive loop, the workers it spawns and their helper goroutines run as scheduler threads; sockets, clock, pools and select choices are environment seams (tools/goinstr rewrites the package's own files mechanically on every run)",
@@ -380,6 +380,131 @@ def c13(tier):
                       "per pipeline: every sequence of length 1..2 (thorough 1..3) over the datagram classes {decodable data, wrong version, truncated, template-only, unknown-template data | count 0 (v5) | only-unknown-samples, (sFlow) all samples filtered} plus two chosen triples, with 1 and 2 workers; every schedule with at most 1 deviation (2 for single datagrams; thorough 2 everywhere). "
                       "Oracle at quiescence: UDPCount = datagrams delivered, DecodedCount = datagrams the protocol's decoder accepts, exactly one payload per record-bearing datagram and none otherwise, no payload twice, nothing left unread.",
                       ["'decodes successfully' is taken as: the protocol's decoder returns a message (for sFlow: decodes and has a sample left) - the check pins once-ness, not that definition", "the outgoing queue (capacity 1000) never fills with <=3 datagrams"])
+
+
+def binary_shutdown_runs(n):
+    """Trace validation for C15: the shipped binary under real signals, real sockets, real time."""
+    import e2e, tempfile, shutil, signal, threading
+    binary = e2e.build_real()
+    fails, ok = [], 0
+    for k in range(n):
+        d = tempfile.mkdtemp(prefix="c15e2e_", dir=orch.BUILD)
+        sink = e2e.Sink()
+        col = None
+        try:
+            col = e2e.Collector(binary, d, sink=sink)
+            if not col.wait_up():
+                fails.append(("binary:did-not-start", "run %d: collector did not come up: %s" % (k, col.output()[-600:])))
+                continue
+            fields = [(1, 8), (2, 8)]
+            col.send("ipfix", e2e.ipfix_msg([e2e.ipfix_template_set(300, fields)]))
+            col.send("netflow9", e2e.v9_msg([e2e.v9_template_set(300, fields)]))
+            col.wait_count("IPFIX", 1)
+            col.wait_count("NetflowV9", 1)
+            nd = 1 + k % 4
+            for i in range(nd):
+                col.send("ipfix", e2e.ipfix_msg([e2e.data_set(300, bytes(range(16)))], seq=i + 2))
+                col.send("netflow9", e2e.v9_msg([e2e.data_set(300, bytes(range(16)))], seq=i + 2))
+                col.send("netflow5", e2e.v5_msg(1 + i % 3))
+                col.send("sflow", e2e.sflow_counter_msg())
+            col.wait_count("IPFIX", 1 + nd)
+            stop = [False]
+
+            def flood():
+                i = 0
+                while not stop[0]:
+                    try:
+                        col.send("ipfix", e2e.ipfix_msg([e2e.ipfix_template_set(301 + i % 50, fields), e2e.data_set(300, bytes(range(16)))], seq=100 + i))
+                        col.send("netflow9", e2e.v9_msg([e2e.v9_template_set(301 + i % 50, fields)], seq=100 + i))
+                        col.send("sflow", e2e.sflow_counter_msg())
+                    except OSError:
+                        pass
+                    i += 1
+                    if i % 50 == 0:
+                        time.sleep(0.001)
+            th = None
+            if k % 2 == 1:
+                th = threading.Thread(target=flood, daemon=True)
+                th.start()
+                time.sleep(0.05 * (k % 5))
+            rc, lat = col.terminate(signal.SIGINT if k % 3 == 2 else signal.SIGTERM)
+            stop[0] = True
+            if th:
+                th.join()
+            out = col.output()
+            if rc != 0:
+                fails.append(("binary:exit-status", "run %d: exit status %s after %.1fs; output tail: %s" % (k, rc, lat, out[-800:])))
+                continue
+            if "panic:" in out or "fatal error" in out:
+                fails.append(("binary:panic-at-shutdown", "run %d: %s" % (k, out[-800:])))
+                continue
+            if lat > 5.0:
+                fails.append(("binary:slow-exit", "run %d: %.1fs to exit" % (k, lat)))
+                continue
+            bad = False
+            for name, path in col.cache.items():
+                try:
+                    doc = json.load(open(path))
+                    assert doc.get("ShardNo") == 32
+                except Exception as e:
+                    fails.append(("binary:cache-file", "run %d: %s cache file unusable: %s" % (k, name, e)))
+                    bad = True
+            if bad:
+                continue
+            # restart on the same cache files: data only, must be published at once
+            before = len(sink.snapshot())
+            col2 = e2e.Collector(binary, d, sink=sink)
+            if not col2.wait_up():
+                fails.append(("binary:restart", "run %d: restart failed: %s" % (k, col2.output()[-600:])))
+                continue
+            col2.send("ipfix", e2e.ipfix_msg([e2e.data_set(300, bytes(range(100, 116)))], seq=999))
+            col2.send("netflow9", e2e.v9_msg([e2e.data_set(300, bytes(range(100, 116)))], seq=999))
+            t1 = time.time()
+            got = []
+            while time.time() - t1 < 5:
+                got = [l for l in sink.snapshot()[before:] if b'"SequenceNo":999' in l or b'"SeqNum":999' in l]
+                if len(got) >= 2:
+                    break
+                time.sleep(0.05)
+            rc2, _ = col2.terminate()
+            if len(got) < 2:
+                fails.append(("binary:restart-decode", "run %d: after the restart only %d of the 2 data datagrams for the saved template were published" % (k, len(got))))
+                continue
+            if rc2 != 0:
+                fails.append(("binary:exit-status", "run %d: second stop exit status %s" % (k, rc2)))
+                continue
+            ok += 1
+        finally:
+            if col:
+                col.kill()
+            sink.close()
+            shutil.rmtree(d, ignore_errors=True)
+    return ok, fails
+
+
+@check("C15")
+def c15(tier):
+    t0 = time.time()
+    b = build("pipe")
+    d, env = sched_env("c15")
+    res = [run_space(b, "pipe.c15", tier, env=env, hang_s=240)]
+    import shutil
+    shutil.rmtree(d, ignore_errors=True)
+    nruns = 20 if tier == "thorough" else 3
+    okruns, fails = binary_shutdown_runs(nruns)
+    extra_viol = [{"t": "viol", "space": "binary", "idx": i, "sig": sig, "msg": msg, "case": {"kind": "real binary run"}} for i, (sig, msg) in enumerate(fails)]
+    r = res[0]
+    return finish("C15", tier, res,
+                  rule="per pipeline: the real run()/workers/shutdown() under main()'s orchestration (replicated: start, wait for the signal, shutdown, wait) in scenarios idle / data before the signal / data around the signal (queue capacity 1000 and 1) / template burst around the signal, two stop-start cycles each; every schedule within the deviation bound, where a deviation is also a timer firing while other threads are still runnable (a thread descheduled for a second). "
+                       "Oracle: no panic (send on / close of closed channel, nil dereference), no deadlock, main returns within 3 virtual seconds of the signal, no race report, the cache file left behind loads and holds the template processed before the signal, after the restart data for it is published at once. "
+                       "Trace validation: %d runs of the shipped binary (real signals SIGTERM/SIGINT, loopback traffic incl. a flood during the signal, TCP sink behind the rawSocket producer, restart on the same cache files)." % nruns,
+                  assumptions=PIPE_ASSUME + ["main()'s 20 lines of orchestration are replicated next to the real run()/shutdown() because GetOptions (flag registration, PID file, kill -0) cannot be re-run per execution",
+                                             "virtual clock: time advances when every thread is blocked; in addition a timer may fire early at the cost of one deviation",
+                                             "'acknowledged before the signal' = the template datagram was fully processed (quiescence) before the signal was sent",
+                                             "a restart inside one execution re-creates the package-level state after the old threads have run out (sched.ProcessBoundary)"],
+                  extra_cov={"executions": r.extra.get("executions", 0), "binary_runs": nruns, "binary_runs_ok": okruns,
+                             "executions_by_deviations": {k: v for k, v in r.extra.items() if k.startswith("executions_with")}},
+                  traces_validated=okruns, extra_viol=extra_viol, t0=t0)
 
 
 def main(argv):
